@@ -399,7 +399,7 @@ func checkC15(run *mon.Run, rng *mon.Rand, thorough bool) {
 			c.scriptedUnconfiguredClient()
 		}
 	}
-	rounds := pick(thorough, 8, 60)
+	rounds := pick(thorough, 8, 160)
 	perRound := pick(thorough, 60, 150)
 	for r := 0; r < rounds && !run.TooMany(); r++ {
 		for _, vn := range names {
